@@ -20,7 +20,7 @@ func TestMain(m *testing.M) { pbt.RunMain(m) }
 var profile = plain.Profile{
 	Name:       "c01",
 	OpKinds:    []string{"set", "set", "set", "set", "del", "del", "get", "maint", "maint", "maint", "maint", "reopen"},
-	MaintKinds: []string{"rotate", "rotate", "rotate", "compact", "compact", "compact", "once", "l0l0", "rewrite", "gc"},
+	MaintKinds: []string{"rotate", "rotate", "rotate", "compact", "drain", "drain", "drain", "once", "l0l0", "rewrite", "gc"},
 	ValueSizes: []int{0, 1, 1, 31, 32, 33, 33, 100, 100, 1000, 9000, 30000},
 }
 
